@@ -329,7 +329,7 @@ pub fn maximal_text_name(rng: &mut Rng, wire: usize) -> Name {
 
 /// Damage a valid text in a way whose invalidity does not depend on grammar corner cases.
 pub fn damaged_text(rng: &mut Rng) -> (String, &'static str) {
-    let which = rng.below(14);
+    let which = rng.below(16);
     // canonical single-space spelling so that token surgery is unambiguous
     let owner = name_to_text(&text_name(rng, 60), true);
     let host = name_to_text(&text_name(rng, 60), true);
@@ -372,6 +372,21 @@ pub fn damaged_text(rng: &mut Rng) -> (String, &'static str) {
         10 => (format!("{} {} IN DS 1 256 2 abcd", owner, ttl), "algorithm-out-of-range"),
         11 => (format!("{} {} IN SOA {} {} ( 1 2 3 4 )", owner, ttl, host, host), "soa-missing-number"),
         12 => (format!("{} {} IN A 192.0.2", owner, ttl), "ipv4-three-octets"),
+        14 => {
+            // a decimal escape above 255 is an out-of-range number
+            let e = *rng.pick(&["\\256", "\\999", "\\300", "\\260"]);
+            let at = rng.below(3);
+            let parts = ["ab", "cd", "ef"];
+            let mut t = String::new();
+            for (i, p) in parts.iter().enumerate() {
+                if i == at {
+                    t.push_str(e);
+                }
+                t.push_str(p);
+            }
+            (format!("{} {} IN TXT \"{}\"", owner, ttl, t), "escape-out-of-range")
+        }
+        15 => (format!("{} {} IN MX 10", owner, ttl), "mx-missing-exchange"),
         _ => (format!("{} {} IN AAAA 12345::1", owner, ttl), "ipv6-group-too-long"),
     }
 }
